@@ -292,7 +292,7 @@ def check_tree(case, violations, counters):
             Mt = P.probe(op.T, cache=False).M
             if not np.array_equal(Mt, M.T):
                 violations.append({'kind': 'transpose-not-scatter-add', 'case': case, 'detail': 'probe(P.T) != probe(P)^T on a pytree'})
-        if case['tree'] == 'stokes':
+        if case['tree'] == 'stokes' and not (len(idx) == 1 and isinstance(idx[0], list)):   # a bare list is refused by JAX arrays themselves
             g2 = x_in[idx if len(idx) != 1 else idx[0]]
             for a_, b_ in zip(jax.tree.leaves(g2), jax.tree.leaves(y)):
                 if not np.array_equal(np.asarray(a_), np.asarray(b_)):
